@@ -93,7 +93,7 @@ Section IRun.
     let '(lo, hi, maxiv, steps) := c in
     if xi_ok xi then ifirst_mismatch false (finit xi repaired lo hi maxiv) 0 steps else Some 0.
 
-  (* how many non-committing asks of the case were made on a state with pending points *)
+  (* number of non-committing asks in the case *)
   Definition inc_asks (c : icase) : nat :=
     let '(_, _, _, steps) := c in
     count_true (fun x => match fst (fst x) with IAskNC _ _ => true | IOp _ => false end) steps.
